@@ -83,9 +83,10 @@ class Executor:
         out = {}
         for oid in self.objs:
             try:
-                out[oid] = D.sha(self.render_obj(oid))
+                r = self.render_obj(oid)
+                out[oid] = [D.sha(r), D.sha(r[1][1]) if self.kinds[oid] == "program" else ""]
             except Exception as e:
-                out[oid] = "unobservable:" + type(e).__name__
+                out[oid] = ["unobservable:" + type(e).__name__, ""]
         return out
 
     # -- steps -------------------------------------------------------------
@@ -176,6 +177,12 @@ class Executor:
             if oid:
                 self.objs[oid] = prog
                 self.kinds[oid] = "program"
+            try:
+                ev["feat"] = {"argless": any("args" not in o for o in prog.operations),
+                              "template": bool(prog.is_template()),
+                              "ops": len(prog)}
+            except Exception:
+                pass
         return ev
 
     # read-only API operations on earlier results ---------------------------
@@ -185,7 +192,8 @@ class Executor:
         return self.objs[oid]
 
     def op_dumps(self, st):
-        return ["text", D.normalise_message(self.bb.dumps(self._get(st["obj"])), self.root)]
+        r = ["text", D.normalise_message(self.bb.dumps(self._get(st["obj"])), self.root)]
+        return {"sha": D.sha(r), "text": r[1][:300]}
 
     def op_call(self, st):
         import numpy as np
